@@ -40,6 +40,7 @@ func listsFor(va []int, vb int, inv []int, nilIdx int) [][]int {
 		{}, {va[0]}, {va[1]}, {va[0], va[1]}, {va[1], va[0]}, {va[0], va[1], va[2]}, {va[2], va[0]},
 		{vb}, {va[0], vb}, {vb, va[1]},
 		{nilIdx}, {va[0], nilIdx}, {nilIdx, va[2]},
+		{va[0], va[0]}, {va[2], va[2], va[0]}, // the same rule twice: two rules in force, each with state of its own
 	}
 	for _, k := range inv {
 		l = append(l, []int{k, va[2]}, []int{k})
@@ -248,7 +249,7 @@ func hotspotModule() *module {
 		IsValid:  func(r interface{}) bool { return hotspot.IsValidRule(r.(*hotspot.Rule)) == nil },
 		Probe: func(res string, enforced []string) (string, string) {
 			got, want := "", ""
-			for _, b := range []uint32{1, 6, 51} {
+			for _, b := range []uint32{1, 3, 6, 51} { // 3: more than half of 5, two rules sharing one bucket would run dry
 				probeSeq++
 				// a value never seen before: the rule's per-value state is fresh
 				e, blk := sentinel.Entry(res, sentinel.WithBatchCount(b), sentinel.WithArgs(fmt.Sprintf("v%d", probeSeq), "x"))
